@@ -59,6 +59,9 @@ def run(tier):
     _c_accelerations(chk)
     _d_wiring(chk)
     _d_facade(chk)
+    # the public facade binds every argument to the service parameter it is meant for (nominal swap rule, rules/common.py)
+    from . import common as _common
+    _common.facade_bindings(chk, "C07.d-facade", ['hiten.system.libration', 'hiten.system.center'], floor=10)
     return chk
 
 
